@@ -252,7 +252,13 @@ template <class A> void SerializeArray(A& a, DynVec& v) { BitSerializer::Detail:
 struct DynMap : std::map<std::string, Dyn> {
 	const Schema* elem = nullptr;
 	using base = std::map<std::string, Dyn>;
+	// the std::map insertion interface a map loader may legitimately use (Dyn has no default constructor: the element schema is supplied here)
 	base::iterator try_emplace(base::const_iterator hint, std::string&& k) { return base::try_emplace(hint, std::move(k), Dyn(elem)); }
+	base::iterator try_emplace(base::const_iterator hint, const std::string& k) { return base::try_emplace(hint, k, Dyn(elem)); }
+	std::pair<base::iterator, bool> try_emplace(std::string&& k) { return base::try_emplace(std::move(k), Dyn(elem)); }
+	std::pair<base::iterator, bool> try_emplace(const std::string& k) { return base::try_emplace(k, Dyn(elem)); }
+	Dyn& operator[](const std::string& k) { return base::try_emplace(k, Dyn(elem)).first->second; }
+	Dyn& operator[](std::string&& k) { return base::try_emplace(std::move(k), Dyn(elem)).first->second; }
 };
 template <class A> void SerializeObject(A& a, DynMap& m) { BitSerializer::Detail::SerializeMapImpl(a, m); }
 
